@@ -63,8 +63,8 @@ class Check(object):
                 viol.append(o)
         os.makedirs(os.path.join(EVID, "replay"), exist_ok=True)
         lines = []
-        for o in knownhits:
-            lines.append("KNOWN-FINDING: property=%s %s :: %s" % (self.pid, o["key"], open_keys[o["key"]].get("what", o["detail"])))
+        for k in sorted({o["key"] for o in knownhits}):
+            lines.append("KNOWN-FINDING: property=%s %s :: %s" % (self.pid, k, open_keys[k].get("what", "")))
         seen = set()
         for o in viol:
             if o["key"] in seen:
